@@ -338,9 +338,11 @@ def impl(case):
         smp = smp or ["s0", "s1"]
         rep_smp = [x for s_ in smp for x in (sopt, s_)]
         file_smp = [sfile, write_list(o / "smp.txt", smp)]
-        res["cli_rep"] = run_cli(["transform", *rep_smp, *file_smp, "-o", o / "a.vcf", gf, d / "h.hap"])
-        res["cli_file"] = run_cli(["ld", *rep_smp, *file_smp, "-o", o / "b.hap", "hapA", gf, d / "h.hap"])
-        res["third"] = run_cli(["simphenotype", *rep_smp, *file_smp, "-o", o / "c.pheno", gf, d / "hb.hap"])
+        # the two forms in either order on the command line, and split around other options
+        both = {0: [*rep_smp, *file_smp], 1: [*file_smp, *rep_smp], 2: [*rep_smp[:2], *file_smp, *rep_smp[2:]]}[case["seed"] % 3]
+        res["cli_rep"] = run_cli(["transform", *both, "-o", o / "a.vcf", gf, d / "h.hap"])
+        res["cli_file"] = run_cli(["ld", *both, "-o", o / "b.hap", "hapA", gf, d / "h.hap"])
+        res["third"] = run_cli(["simphenotype", *both, "-o", o / "c.pheno", gf, d / "hb.hap"])
         res["api_error"] = None
         res["out"] = [(o / "a.vcf").exists(), (o / "b.hap").exists(), (o / "c.pheno").exists()]
     return res
